@@ -8,11 +8,11 @@ from lxml import etree
 from harness.core import Result
 from harness import xsdgen, xmlcanon, enginea, valgen
 
-LEAN_MODULES = ["ZeepProofs.C12"]
+LEAN_MODULES = ["ZeepProofs.C12", "ZeepProofs.C12Faithful"]
 NS = "Zeep.Bind."
 THEOREMS = [NS + t for t in ("c12_unknown_key_refused", "c12_unknown_key_any_depth", "c12_surplus_positional_refused", "c12_duplicate_refused",
                               "c12_occurs_refused", "c12_missing_required_refused", "c12_missing_required_attribute_refused",
-                              "c12_conventions_agree", "c12_skip_omits", "c12_nil_marks")]
+                              "c12_conventions_agree", "c12_skip_omits", "c12_nil_marks", "c12_faithful")]
 LEVEL = "proof"
 MANIFEST = dict(
     engine="A: lean/ZeepModel/Xsd/Bind.lean (+ harness/valgen.py)",
@@ -24,13 +24,13 @@ MANIFEST = dict(
          "names nothing — at the top level and, by induction over the path, at any nesting depth incl. inside an iteration of a repeated sequence —, "
          "surplus positional arguments, a field given twice, a repetition outside its occurrence bounds, a missing required non-nillable element "
          "and a missing required attribute; positional and keyword spellings of the same data give the same result; SkipValue omits and Nil marks "
-         "exactly the element they are given for. Every run ties the model to zeep: conforming calls generated from the section-5 grammar are made "
+         "exactly the element they are given for; and an accepted call is faithful (c12_faithful, mutual induction over signatures): every scalar passed at any depth — nested record, list item, iteration of a repeated sequence, attribute — is in the character data of the element sent. Every run ties the model to zeep: conforming calls generated from the section-5 grammar are made "
          "as dicts, value objects, a mix per nesting level and positionally, must give identical XML equal to the reference serialisation, and "
          "every single-point corruption (extra key, misspelt key, key of the other choice branch, extra positional, duplicate, required item "
          "removed or None, list shorter than minOccurs / longer than maxOccurs on elements and repeated sequences, SkipValue / Nil substituted) "
          "must be refused — or, for the two markers, accepted with exactly the expected document; outcome class and XML are compared with the model.",
-    note="Choice, all, group and wildcard members are outside the Lean model (refusal is checked on the implementation only). Faithfulness of an "
-         "accepted call is established through C02 (emitted XML equals the reference serialisation of what was supplied).",
+    note="Choice, all, group and wildcard members are outside the Lean model (refusal is checked on the implementation only). On the implementation, faithfulness of an "
+         "accepted call is judged against the reference serialisation of what was supplied (as in C02).",
     design_ref="DESIGN.md sections 5 and 6, C12",
 )
 TRUSTED = ["harness/valgen.py: conforming values, the caller's conventions, the reference serialiser", "the corruption operators of harness/props/c12.py"]
